@@ -21,7 +21,7 @@ from . import common
 
 ID = 'C12'
 LEVEL = 'exploration'
-RUNS = {'quick': 6000, 'thorough': 150000}
+RUNS = {'quick': 30000, 'thorough': 200000}
 SIM_TIME_UNIT = 'updates / evaluations'
 RULE = ('seeded generation of (modular specification with 1-4 named sub-specifications incl. shared, nested and unreferenced '
         'ones, monitor kind, data); every update is a checked history for the online kinds; non-trivial = some named value is '
@@ -94,6 +94,10 @@ def gen(rng, tier):
             # one update() raises half-way: a further sensor z, read only by the last conjunct of the top assertion, delivers
             # None once; the application catches the exception and keeps monitoring with the same object
             sc['poison'] = {'at': rng.randrange(sc['n'] - 1)}
+    rounds = sc['nbatches'] if dense else sc['n']
+    if mode == 'on' and not sc.get('poison') and rounds >= 2 and rng.random() < 0.2:
+        # reset() between two updates: the named values afterwards are those of monitors that only saw the later inputs
+        sc['reset_at'] = rng.randrange(1, rounds)
     return sc
 
 
@@ -241,6 +245,10 @@ def run(sc):
             else:
                 rounds = list(range(sc['n']))
             for k, rd in enumerate(rounds):
+                if sc.get('reset_at') == k and not poison:
+                    M.api('reset', parent.reset)
+                    alone = [(n, M.build(alone_desc(sc, a))) for n, a in names]
+                    r.faults['reset'] += 1
                 if dense:
                     M.ct_update(parent, rd, sc['vars'])
                 elif poison:
@@ -319,6 +327,10 @@ def shrinks(sc):
     if sc.get('poison'):
         c = copy.deepcopy(sc)
         c['poison'] = None
+        yield c
+    if sc.get('reset_at') is not None:
+        c = copy.deepcopy(sc)
+        c['reset_at'] = None
         yield c
     if sc.get('extra'):
         c = copy.deepcopy(sc)
